@@ -2,7 +2,8 @@
    Statements only; the model is model/Queue.v (transition system of slimta.queue.Queue at
    yield-point granularity; a schedule = list of events, so "forall es" quantifies over all
    interleavings, relay outcome histories, backoff answers and clock behaviours). *)
-From Coq Require Import List NArith Bool.
+From Coq Require Import List NArith Bool Arith Lia.
+From SV Require Import model.QueuePools proof.QueuePools_lemmas.
 From SV Require Import model.Queue proof.Queue_base proof.Queue_T proof.Queue_W proof.Queue_E proof.Queue_L proof.Queue_examples.
 Import ListNotations.
 Open Scope N_scope.
@@ -94,3 +95,52 @@ Proof.
   apply (t_tracked s (run_T es _ T)). exact Hs.
 Qed.
 Print Assumptions C12_not_forgotten_after_restart.
+
+
+(* ---------- bounded store / relay pools (model/QueuePools.v: who holds which slot, who waits for which) ----------
+   The queue model above has unbounded pools.  With bounded pools the property FAILS on the unchanged
+   code (known finding c12:bounded-pools-deadlock, D10): the schedule below is reachable in
+   Queue(store_pool=2, relay_pool=1) over a storage with wait() and ends in a state in which the
+   _dequeue of message 1 holds the last store slot and waits for a relay slot while the _attempt of
+   message 0 holds the only relay slot and waits for a store slot; no event is enabled any more, in
+   any continuation: neither message is ever retried.  The harness drives the real Queue through this
+   schedule on every run and compares the pools' free counts with the model step by step. *)
+Theorem C12_bounded_pools_deadlock_refuted :
+  let s := prun d10_sched d10_start in
+  stuck s = true /\ ptasks s = [PWaitStore; PAttWantS 0%nat; PDeqWantR 1%nat] /\
+  free_s s = Some 0%nat /\ free_r s = Some 0%nat /\ forall es, prun es s = s.
+Proof. exact d10_deadlock. Qed.
+Print Assumptions C12_bounded_pools_deadlock_refuted.
+
+(* ... and it cannot happen with unbounded pools (the configuration the theorems above are about):
+   whatever work is pending, some greenlet can move, after every history of events and new work *)
+Theorem C12_unbounded_pools_never_stuck : forall os waits,
+  stuck (pruns os (pinit None None waits)) = false.
+Proof.
+  intros os waits. destruct (unbounded_stays os (pinit None None waits)) as [Hs Hr]; [destruct waits; reflexivity|reflexivity|].
+  apply unbounded_never_stuck; assumption.
+Qed.
+Print Assumptions C12_unbounded_pools_never_stuck.
+
+(* nor with an unbounded relay pool and at least two store slots (one is taken by _wait_store) *)
+Theorem C12_relay_unbounded_never_stuck : forall cs os waits, (2 <= cs)%nat ->
+  stuck (pruns os (pinit (Some cs) None waits)) = false.
+Proof.
+  intros cs os waits H.
+  assert (I : PInv cs 0%nat (pinit (Some cs) None waits)) by (apply (pinit_inv cs 0%nat waits); intros; lia).
+  apply (relay_unbounded_never_stuck cs 0%nat); [exact H|apply pruns_inv; exact I|].
+  clear I. generalize (pinit (Some cs) None waits) (eq_refl : free_r (pinit (Some cs) None waits) = None).
+  induction os as [|o os IH]; intros s Hr; cbn; [exact Hr|]. apply IH.
+  destruct o as [e|i|i]; cbn.
+  - unfold pstep. destruct (enabled s e); cbn; [|exact Hr]. destruct e; cbn; rewrite ?Hr; reflexivity.
+  - exact Hr.
+  - unfold add_attempt. destruct (avail (free_r s)); cbn; rewrite ?Hr; reflexivity.
+Qed.
+Print Assumptions C12_relay_unbounded_never_stuck.
+
+(* a stuck state always has a full pool that somebody holding a slot of the other pool waits for *)
+Theorem C12_stuck_needs_full_pool : forall s, stuck s = true ->
+  (exists i, In (PDeqWantR i) (ptasks s) /\ free_r s = Some 0%nat) \/
+  (exists i, (In (PDeqWantS i) (ptasks s) \/ In (PAttWantS i) (ptasks s)) /\ free_s s = Some 0%nat).
+Proof. exact stuck_needs_full_pool. Qed.
+Print Assumptions C12_stuck_needs_full_pool.
